@@ -19,7 +19,9 @@ signal.c 79-124, 262-330; process.c 188-262, 935-1110; fs.c 294-390, 1230-1425; 
 -/
 namespace UvModel.FdLedger
 
-inductive Kind | sock | pipe | file | epoll | ring | evfd | inot | ipc
+/-- what a descriptor is; `sock` = AF_UNIX stream socket, `tcp`/`udp` = AF_INET sockets, `ipc*` = received over an
+    IPC pipe (SCM_RIGHTS), by family.  The log prints the coarse class only (`kindStr`). -/
+inductive Kind | sock | tcp | udp | pipe | file | epoll | ring | evfd | inot | ipc | ipcTcp | ipcUdp
   deriving DecidableEq, Repr
 
 /-- creation sites in the C code; `siteCloexec` is the close-on-exec flag each of them passes -/
@@ -101,8 +103,11 @@ structure Ledger where
   deriving Repr
 
 def kindStr : Kind → String
-  | .sock => "sock" | .pipe => "pipe" | .file => "file" | .epoll => "epoll" | .ring => "ring"
-  | .evfd => "evfd" | .inot => "inot" | .ipc => "ipc"
+  | .sock => "sock" | .tcp => "sock" | .udp => "sock" | .pipe => "pipe" | .file => "file" | .epoll => "epoll" | .ring => "ring"
+  | .evfd => "evfd" | .inot => "inot" | .ipc => "ipc" | .ipcTcp => "ipc" | .ipcUdp => "ipc"
+
+def Kind.isTcp : Kind → Bool | .tcp => true | .ipcTcp => true | _ => false
+def Kind.isSock : Kind → Bool | .sock => true | .tcp => true | .udp => true | .ipc => true | .ipcTcp => true | .ipcUdp => true | _ => false
 
 def find? (led : List Entry) (o : Owner) : Option Entry := led.find? (·.owner = o)
 def findId? (led : List Entry) (id : Nat) : Option Entry := led.find? (·.id = id)
